@@ -139,7 +139,10 @@ def run(module, cfg, *, workers=16, simulate=None, depth=None, seed=None, timeou
                 fh.write(text)
         with open(os.path.join(rd, module + ".cfg"), "w") as fh:
             fh.write(cfg)
-        cmd = ["java", "-XX:+UseParallelGC", "-Xss16m"]
+        if workers <= 2:   # emitting / simulating runs are launched many at a time: keep each JVM small
+            cmd = ["java", "-XX:+UseSerialGC", "-Xss16m", "-Xmx3g", "-XX:CICompilerCount=2", "-XX:-UsePerfData"]
+        else:
+            cmd = ["java", "-XX:+UseParallelGC", "-Xss16m"]
         if java_opts:
             cmd += list(java_opts)
         cmd += ["-cp", JAR, "tlc2.TLC", "-metadir", os.path.join(rd, "meta"), "-noGenerateSpecTE",
